@@ -375,6 +375,8 @@ func (im *Impl) Exec(line string) (out string) {
 		return im.rbBegin(w[1], has("real"), has("stale"))
 	case "stash":
 		return im.stash()
+	case "rbabort":
+		return im.rbAbort()
 	case "rbreload":
 		return im.rbReload()
 	case "lunmap":
